@@ -340,7 +340,10 @@ pub fn emit_recv(recvs: &[Recv], r: &Recv, out: &mut String) {
                 let attr = if vo.is_empty() { String::new() } else { format!("#[darling({})] ", vo.join(", ")) };
                 match &v.body {
                     VBody::Unit => out.push_str(&format!("    {attr}{},\n", v.rust)),
-                    VBody::Newtype(t) => out.push_str(&format!("    {attr}{}({}),\n", v.rust, rust_ty(recvs, t))),
+                    VBody::Newtype(t) => {
+                        let fattr = v.newtype_field().map(|f| field_attr(recvs, &format!("{}v{vi}", r.id), &f, vi)).unwrap_or_default();
+                        out.push_str(&format!("    {attr}{}({fattr}{}),\n", v.rust, rust_ty(recvs, t)))
+                    }
                     VBody::Struct(fs) => {
                         out.push_str(&format!("    {attr}{} {{\n", v.rust));
                         for (k, f) in fs.iter().enumerate() {
@@ -352,6 +355,9 @@ pub fn emit_recv(recvs: &[Recv], r: &Recv, out: &mut String) {
             }
             out.push_str("}\n");
             for (vi, v) in vars.iter().enumerate() {
+                if let Some(f) = v.newtype_field() {
+                    field_helpers(recvs, &format!("{}v{vi}", r.id), &f, vi, out);
+                }
                 if let VBody::Struct(fs) = &v.body {
                     for (k, f) in fs.iter().enumerate() {
                         field_helpers(recvs, &format!("{}v{vi}", r.id), f, k, out);
@@ -487,7 +493,21 @@ pub fn emit_shard_darling_only(recvs: &[Recv], ids: &[usize]) -> String {
             }
             let boundary = i == 0 || !(b[i - 1].is_ascii_alphanumeric() || b[i - 1] == b'_' || b[i - 1] == b':');
             // the name of a variant in an enum declaration stays what it is
-            let variant_name_position = in_enum && (line[..i].trim().is_empty() || line[..i].trim_end().ends_with(']'));
+            let variant_name_position = in_enum && {
+                // nothing but whitespace and whole `#[..]` attributes before it
+                let mut depth = 0i32;
+                let mut only_attrs = true;
+                for ch in line[..i].chars() {
+                    match ch {
+                        '[' => depth += 1,
+                        ']' => depth -= 1,
+                        '#' | ' ' => {}
+                        _ if depth > 0 => {}
+                        _ => only_attrs = false,
+                    }
+                }
+                only_attrs && depth == 0
+            };
             if boundary && !in_str && !variant_name_position {
                 for (needle, repl, is_constructor) in QUALIFY {
                     // variant names in an enum declaration stay what they are
